@@ -24,6 +24,7 @@ type vfbChainOracle struct {
 	c01    bool
 	c02    bool
 	info   func() map[string]any
+	pending map[int]*common.Beacon // node -> Put in flight at its base store (base Puts of one node are serialised by the append store)
 }
 
 func newChainOracle(nt *vfbNet, sc vfbScenario, c01, c02 bool) *vfbChainOracle {
@@ -98,9 +99,36 @@ func (o *vfbChainOracle) onPut(n *vfbNode, b *common.Beacon, src string, seq int
 			o.global[b.Round] = b
 		}
 	}
-	sh[b.Round] = b
-	if b.Round >= o.heads[n.pos] {
-		o.heads[n.pos] = b.Round
+	// the shadow is committed when the base store has answered without error (onPutRet): a Put refused by a
+	// store that is being closed (node stopping) must not count as stored
+	if o.pending == nil {
+		o.pending = map[int]*common.Beacon{}
+	}
+	o.pending[n.pos] = b
+}
+
+func (o *vfbChainOracle) onPutRet(n *vfbNode, b *common.Beacon, src string, err error) {
+	if !o.c02 {
+		return
+	}
+	o.mu.Lock()
+	defer o.mu.Unlock()
+	p := o.pending[n.pos]
+	delete(o.pending, n.pos)
+	if err != nil || p == nil || p.Round != b.Round {
+		if err != nil {
+			o.nt.run.Count("base_puts_failed", 1)
+		}
+		return
+	}
+	sh := o.shadow[n.pos]
+	if sh == nil {
+		sh = map[uint64]*common.Beacon{}
+		o.shadow[n.pos] = sh
+	}
+	sh[p.Round] = p
+	if _, has := o.heads[n.pos]; !has || p.Round >= o.heads[n.pos] {
+		o.heads[n.pos] = p.Round
 	}
 }
 
@@ -243,6 +271,7 @@ func vfbChainCases(t *testing.T, prop string, c01, c02 bool, quick, thorough int
 						orc.onPut(n, b, src, seq)
 					}
 					nt.onSyncSend = orc.onSyncSend
+					nt.onPutRet = orc.onPutRet
 				},
 				atEnd: func(nt *vfbNet, adv *vfbAdversary) {
 					// a few healed rounds so that stopped / partitioned nodes sync (the sync path must be exercised)
